@@ -14,8 +14,11 @@
     * `goto` arriving at its label with a different lock set than the label is reached with otherwise,
     * a block that falls through to its end with a changed lock set (if without else, loop body),
     * Lock of a mutex the function already holds (self-deadlock), Unlock of one it does not hold,
+    * a call, made while a mutex is held (a deferred Unlock has not run yet), of a function of the traced
+      files that locks that same mutex itself - through its receiver (`c.DoS()` with c.Mutex held) or a
+      package-level mutex; one level deep (the callee's own trace, not what the callee calls in turn),
     * a shared access outside the span of its lock.
-  The scan is path-insensitive and per function (a callee's locks are not followed): functions that
+  The scan is path-insensitive and per function (beyond the one level above a callee's locks are not followed): functions that
   are called with a lock held by contract are listed in `callerHolds` with that lock.
   Core Lean only; evaluated by the kernel on the regenerated traces (Props.C18.lock_discipline_current).
 -/
@@ -135,6 +138,8 @@ def step (s0 : St) (t : Tok) : St :=
       else { (s'.complain "case falls out with a changed lock set") with held := f.entry }
     | [] => s'.complain "case outside switch"
   | 11 => { s' with lastLeaves := true }
+  | 12 => -- call of a function (of the traced files) that locks t.2 itself: sync.Mutex is not re-entrant
+    if s.held.contains t.2 then s'.complain ("call of a function that locks " ++ t.2 ++ " while it is held") else s'
   | _ => s'.complain "unknown token"
 
 /-- functions that are called with a lock already held, by contract stated at the definition or
@@ -167,5 +172,13 @@ def shapeStoreLocked : List Tok := [(3, "for"), (0, "c.Mutex"), (9, "c.Mutex"), 
 def shapeStoreBare : List Tok := [(3, "for"), (9, "c.Mutex"), (4, "for")]
 /-- `Lock; if err { return }; Unlock` (SendRawMsg before its fix) -/
 def shapeReturnHeld : List Tok := [(0, "c.Mutex"), (3, "if"), (5, ""), (4, "if"), (1, "c.Mutex")]
+/-- `Lock; if full { Unlock; c.DoS(); return }; Unlock` — SendRawMsg's overflow path in the current source
+    (DoS locks c.Mutex itself) -/
+def shapeCallUnlocked : List Tok :=
+  [(0, "c.Mutex"), (3, "if"), (1, "c.Mutex"), (12, "c.Mutex"), (5, ""), (4, "if"), (1, "c.Mutex")]
+/-- `Lock; defer Unlock; if full { c.DoS(); return }` — the same path after a "tidy-up" to a deferred
+    Unlock: every exit is fine, but DoS waits for the mutex its caller holds -/
+def shapeCallDeferred : List Tok :=
+  [(0, "c.Mutex"), (2, "c.Mutex"), (3, "if"), (12, "c.Mutex"), (5, ""), (4, "if")]
 
 end GocoinV.NetParse.Locks
